@@ -75,31 +75,64 @@ def make_cases(ctx, n_cases, stream=1):
             iters = int(rng.choice([0, 0, 1, 2, 5, 100]))
             cases.append(dict(fixed=fixed, ep=ep, ec=ec, t=t, eps=eps, iters=iters, mode=mode,
                               trees=ts.num_trees, historical=bool(info["historical"])))
-    return cases[:n_cases]
+    return add_flag_cases(rng, cases[:n_cases])
 
 
 def encode(i, c):
+    # wrapper-level cases carry the node-flags column; the model derives the mask itself (fixedOfFlags)
+    mask = ("flags " + " ".join(str(int(f)) for f in c["flags"])) if c.get("flags") is not None else \
+        ("fixed " + " ".join("1" if b else "0" for b in c["fixed"]))
     return "\n".join([
         f"case {i}", f"eps {f2h(c['eps'])}", f"iters {c['iters']}",
-        "fixed " + " ".join("1" if b else "0" for b in c["fixed"]),
+        mask,
         "times " + " ".join(f2h(x) for x in c["t"]),
         "edges " + " ".join(f"{p} {ch}" for p, ch in zip(c["ep"], c["ec"])),
         "end"]) + "\n"
 
 
 def case_replay(c):
-    return dict(kind="constrain", fixed=[int(b) for b in c["fixed"]], edges_parent=[int(x) for x in c["ep"]],
+    return dict(kind="constrain", fixed=[int(b) for b in c["fixed"]],
+                flags=None if c.get("flags") is None else [int(f) for f in c["flags"]], edges_parent=[int(x) for x in c["ep"]],
                 edges_child=[int(x) for x in c["ec"]], times=[f2h(x) for x in c["t"]], eps=f2h(c["eps"]),
                 iters=c["iters"], mode=c.get("mode"))
 
 
 def case_from_replay(d):
-    return dict(fixed=np.array(d["fixed"], dtype=bool), ep=np.array(d["edges_parent"], dtype=np.int32),
+    return dict(fixed=np.array(d["fixed"], dtype=bool),
+                flags=None if d.get("flags") is None else np.array(d["flags"], dtype=np.uint32), ep=np.array(d["edges_parent"], dtype=np.int32),
                 ec=np.array(d["edges_child"], dtype=np.int32), t=np.array([h2f(x) for x in d["times"]]),
                 eps=h2f(d["eps"]), iters=int(d["iters"]), mode=d.get("mode"))
 
 
+EXTRA_FLAG_BITS = [1 << 20, 1 << 30, 2, 1 << 7]   # tsinfer historical sample, tsdate split-by-preprocess, user bits
+
+
+def add_flag_cases(rng, cases, frac=0.35):
+    """Turn a fraction of the cases into wrapper-level cases: the node-flags column (sample bit = the case's
+    mask, plus random other bits on sample and non-sample nodes) instead of a pre-computed mask."""
+    for c in cases:
+        if rng.random() < frac:
+            flags = c["fixed"].astype(np.uint32)
+            for b in EXTRA_FLAG_BITS:
+                flags |= (rng.random(flags.size) < 0.3).astype(np.uint32) * np.uint32(b)
+            c["flags"] = flags
+    return cases
+
+
+class _FlagsTs:
+    """The slice of the TreeSequence interface that util.constrain_ages reads."""
+    def __init__(self, c):
+        self.nodes_flags = c["flags"]
+        self.edges_parent = c["ep"]
+        self.edges_child = c["ec"]
+        self.num_nodes = int(c["t"].size)
+
+
 def run_impl(c):
+    if c.get("flags") is not None:
+        # the Python wrapper: derives the fixed mask from ts.nodes_flags itself
+        from tsdate.util import constrain_ages
+        return constrain_ages(_FlagsTs(c), c["t"].copy(), c["eps"], c["iters"])
     from tsdate.util import _constrain_ages
     return _constrain_ages(c["t"].copy(), c["fixed"], c["ep"], c["ec"], c["eps"], c["iters"])
 
